@@ -21,9 +21,10 @@ LOOKUP = 'left_cumulative_and_probability'
 class Wide:
     """Does a term depend on the symbol atom through a path without a possibly-narrowing conversion?"""
 
-    def __init__(self, F):
+    def __init__(self, F, lossy_wrapping=False):
         self.F = F
         self.summaries = {}
+        self.lossy_wrapping = lossy_wrapping
 
     def helper_summary(self, defpath):
         """For a crate-local helper: set of argument indices (1-based) on which the result depends WIDE-ly;
@@ -60,6 +61,10 @@ class Wide:
             return None
         if h == 'cast' and t[1] in NARROWING_CASTS:
             d = self.depends(t[2], atom)
+            return 'narrow' if d else None
+        if h == 'bin' and t[1].endswith('.w') and self.lossy_wrapping:
+            # wrapping arithmetic loses the information a later widening would need (e.g. a wrapped difference)
+            d = self.depends(t[2], atom) or self.depends(t[3], atom)
             return 'narrow' if d else None
         if h == 'call':
             summ = self.helper_summary(t[1])
